@@ -137,6 +137,16 @@ func runC17(c *core.Ctx) {
 	})
 	long2Idx := len(worlds) - 1
 	longIdx := len(worlds) - 2
+	// logs of exactly 512 and 1024 records (round numbers at which a batching writer hands over), one entry a day
+	for _, nd := range []int{512, 1024} {
+		var sb strings.Builder
+		d0 := gen.Date{Y: 2019, M: 1, D: 1}
+		for k := 0; k < nd; k++ {
+			fmt.Fprintf(&sb, "%s:\n  a/b: %d\n", d0.AddDays(k).Format("2006/01/02"), 1+k%7)
+		}
+		worlds = append(worlds, map[string]string{"food.yaml": "a/b:\n  x: 1\n  y: 2\n", "log.yaml": sb.String(), "bad.yaml": "2021/01/24:\n  broken\n", "stray.yaml": c17Stray})
+	}
+	round2Idx, round1Idx := len(worlds)-1, len(worlds)-2
 	worlds = append(worlds, c17Files(c, 1000, true))
 	bigIdx := len(worlds) - 1
 	pre := []string{"--no-color", "-d", "food.yaml", "-l", "log.yaml", "--today", "2021/02/01"}
@@ -154,7 +164,7 @@ func runC17(c *core.Ctx) {
 			}
 			L := len(res.Out)
 			fullOut[[2]int{wi, ci}] = res.Out
-			if wi != bigIdx && wi != longIdx && wi != long2Idx {
+			if wi != bigIdx && wi != longIdx && wi != long2Idx && wi != round1Idx && wi != round2Idx {
 				if L <= 3000 {
 					exhaustiveCmds++
 					for k := 0; k <= L; k++ {
